@@ -38,8 +38,9 @@ type coalesceOperator struct {
 	// checkDuplicates is set when the operators are shards of one expression,
 	// whose series must have distinct labels at every step. It is not set for
 	// the partial results of remote engines, which overlap by design.
-	checkDuplicates bool
-	duplicates      *model.DuplicateLabelCheck
+	checkDuplicates  bool
+	checkAcrossSteps bool
+	duplicates       *model.DuplicateLabelCheck
 }
 
 func NewCoalesce(pool *model.VectorPool, operators ...model.VectorOperator) model.VectorOperator {
@@ -56,11 +57,19 @@ func NewCoalesce(pool *model.VectorPool, operators ...model.VectorOperator) mode
 // dropped the label that told them apart (rate() drops the metric name), which
 // the shards cannot see on their own.
 func NewShardCoalesce(pool *model.VectorPool, operators ...model.VectorOperator) model.VectorOperator {
+	return NewDistinctCoalesce(pool, true, operators...)
+}
+
+// NewDistinctCoalesce merges operators whose series must not share labels:
+// two of them with a sample at the same step, or with acrossSteps at any two
+// steps, fail the query.
+func NewDistinctCoalesce(pool *model.VectorPool, acrossSteps bool, operators ...model.VectorOperator) model.VectorOperator {
 	return &coalesceOperator{
-		pool:            pool,
-		operators:       operators,
-		sampleOffsets:   make([]uint64, len(operators)),
-		checkDuplicates: true,
+		pool:             pool,
+		operators:        operators,
+		sampleOffsets:    make([]uint64, len(operators)),
+		checkDuplicates:  true,
+		checkAcrossSteps: acrossSteps,
 	}
 }
 
@@ -214,8 +223,10 @@ func (c *coalesceOperator) loadSeries(ctx context.Context) error {
 		offset += uint64(len(series))
 	}
 
-	if c.checkDuplicates {
+	if c.checkDuplicates && c.checkAcrossSteps {
 		c.duplicates = model.NewDuplicateLabelCheckAcrossSteps(c.series)
+	} else if c.checkDuplicates {
+		c.duplicates = model.NewDuplicateLabelCheck(c.series)
 	}
 	c.pool.SetStepSize(len(c.series))
 	return nil
